@@ -1,4 +1,5 @@
 """Generic runner: implementation vs model on cases of ops, plus optional `chk` pass."""
+import re
 from check import Case, exec_cases
 from gen import common as G
 
@@ -38,7 +39,7 @@ def run_simple(ctx, cases, prop, chk_filter=None, signature=None, relation=None,
         first_bad = None
         for oi, op in enumerate(c.ops):
             i, m = impl[ci][oi], model[ci][oi]
-            dist.add("impl:" + (i or "missing").split(" ")[0])
+            dist.add("impl:" + re.split(r"[ =/;,]", (i or "missing"))[0][:24])
             ok = (i == m) if relation is None else relation(op, i, m)
             if not ok and agrees:
                 agrees = False
